@@ -370,11 +370,9 @@ func c10DecodedExec(kind string, version, dest, issuer, status int, noIssuer boo
 	return nil, detail
 }
 
-func c10Run(r *mc.Run) {
-	r.Rule = "full product kind(2) x Version(3) x Destination(5: SLO URL, absent, empty, ACS URL, evil) x Issuer(3) x Status(4, LogoutResponse) x signing state(9: unsigned, K1, K2, untrusted, tampered, 4 wrapping/relocation shapes) x presentation(2) x signature checking(2) x IdP issuer configured(2); kind-confusion matrix 3x3x2x2; ValidateDecoded* on hand-built structs (full field product); non-trivial = the message reached the field checks or the signature logic (all do); distinct = distinct case"
-	r.Assume("RSA unforgeable", "goxmldsig canonicalisers used by the harness signer")
+func c10Cases() []c10Case {
 	var cases []c10Case
-	n, _ := mc.Enumerate(-1, r.Expired, func(ch *mc.Chooser) {
+	mc.Enumerate(-1, nil, func(ch *mc.Chooser) {
 		c := c10Case{}
 		c.Kind = []string{"LogoutRequest", "LogoutResponse"}[ch.Choose("kind", 2)]
 		c.Version = ch.Choose("version", 3)
@@ -389,11 +387,25 @@ func c10Run(r *mc.Run) {
 		c.NoIssuer = ch.Bool("noissuer")
 		cases = append(cases, c)
 	})
+	return cases
+}
+
+func c10Run(r *mc.Run) {
+	r.Rule = "full product kind(2) x Version(3) x Destination(5: SLO URL, absent, empty, ACS URL, evil) x Issuer(3) x Status(4, LogoutResponse) x signing state(9: unsigned, K1, K2, untrusted, tampered, 4 wrapping/relocation shapes) x presentation(2) x signature checking(2) x IdP issuer configured(2); kind-confusion matrix 3x3x2x2; ValidateDecoded* on hand-built structs (full field product); non-trivial = the message reached the field checks or the signature logic (all do); distinct = distinct case"
+	r.Assume("RSA unforgeable", "goxmldsig canonicalisers used by the harness signer")
+	cases := c10Cases()
+	n := len(cases)
 	r.Set("choice_vectors", n)
 	r.State(len(cases))
+	fresh := make([]string, len(cases))
+	defer livePass(r, len(cases), 3, 90*time.Second, func(i int) string {
+		keys, _, class := c10Exec(cases[i])
+		return sig(keys, class)
+	}, fresh)
 	r.Par(len(cases), func(i int) {
 		c := cases[i]
 		keys, detail, class := c10Exec(c)
+		fresh[i] = sig(keys, class)
 		r.Eval(1)
 		r.Transition(1)
 		r.Bucket(class)
@@ -449,7 +461,23 @@ func init() {
 	register("C10", &check{run: c10Run, replay: c10ReplayAll, quick: 200 * time.Second, thor: 600 * time.Second})
 }
 
+var c10Memo []c10Case
+
 func c10ReplayAll(raw json.RawMessage) ([]string, string) {
+	if keys, detail, ok := liveReplay(raw, "C10", func(string) int {
+		if c10Memo == nil {
+			c10Memo = c10Cases()
+		}
+		return len(c10Memo)
+	}, func(_ string, i int) string {
+		if c10Memo == nil {
+			c10Memo = c10Cases()
+		}
+		k, _, class := c10Exec(c10Memo[i])
+		return sig(k, class)
+	}); ok {
+		return keys, detail
+	}
 	var probe struct {
 		Decoded string `json:"decoded"`
 		Dims    []int  `json:"dims"`
